@@ -638,3 +638,18 @@ Proof.
   destruct (decode_faithful_all fp enc_len2 CS2 cache_add2 cache2 threshold2 flush_limit2 ctx_ttl b) as [c2 [H2 [_ R2]]].
   rewrite H1, H2. cbn. congruence.
 Qed.
+
+(* ---------------------------------------------------------------- a body whose reader fails part-way *)
+Lemma cut_fails_or_full fp enc_len CS cache_add cache0 threshold flush_limit ctx_ttl n noticed b :
+  match decode_cut fp enc_len CS cache_add cache0 threshold flush_limit ctx_ttl n noticed b with
+  | ReadFailed sent => exists rest, result_chunks (decode fp enc_len CS cache_add cache0 threshold flush_limit ctx_ttl b) = (sent ++ rest)%list
+  | Answered r => exists cs, r = Done cs /\ Forall chunk_rect cs /\ rows_of cs = rows_spec fp ctx_ttl (entries_of b)
+  end.
+Proof.
+  unfold decode_cut. destruct (Nat.ltb n (List.length (calls_of flush_limit b)) || noticed).
+  - unfold decode. set (ks := calls_of flush_limit b).
+    pose proof (sent_prefix_stable fp enc_len CS cache_add threshold ctx_ttl (firstn n ks) (skipn n ks) (empty_chunk, cache0)) as H.
+    rewrite firstn_skipn in H. exact H.
+  - apply decode_faithful_all.
+Qed.
+
